@@ -525,6 +525,59 @@ def run(ctx):
     if n_bud == 0:
         ctx.ok("C20-R9", "budget-arithmetic", "no overflow-checked addition involves max_tokens_total / max_all_items / a ParserLimits value")
 
+    # ------------------------------------------------------------------ R10 integer logarithms of possibly-zero values
+    # `ilog10` / `ilog2` / `ilog` panic for 0 (in every build profile).  A call is accepted only when its argument is known to be
+    # non-zero on every path: dominated by `x != 0` / `x > 0` / `x >= 1` (or the false edge of `x == 0` / `x < 1`) on the same
+    # expression, or the argument is a non-zero constant / `x + c` / `x | c` with c > 0 / a NonZero type.  The pinned tree has no such
+    # call; the rule exists because replacing a digit-counting loop by `ilog10() + 1` is the obvious tidy-up (token id 0,
+    # a zero count, an empty length).
+    def _same(a, b_):
+        return F.fmt_expr(L.strip_wrappers(a)) == F.fmt_expr(L.strip_wrappers(b_))
+
+    def _nonzero_by_shape(e):
+        e = L.strip_wrappers(e)
+        if e[0] == "const" and isinstance(e[1], int):
+            return e[1] != 0
+        if e[0] == "bin" and e[1] in ("Add", "BitOr"):
+            return any(x[0] == "const" and isinstance(x[1], int) and x[1] > 0 for x in (L.strip_wrappers(e[2]), L.strip_wrappers(e[3])))
+        if e[0] == "call" and e[1].rsplit("::", 1)[-1] in ("get",) and "NonZero" in e[1]:
+            return True
+        if e[0] == "call" and e[1].rsplit("::", 1)[-1] == "max" and len(e[2]) == 2:
+            return any(_nonzero_by_shape(x) for x in e[2])
+        return False
+
+    n_log = 0
+    for i, b in sorted(P.bodies.items()):
+        if not P._is_code(b) or not i.startswith(("llguidance::", "toktrie::", "<llguidance::", "<toktrie::", "toktrie_hf_tokenizers::", "toktrie_tiktoken::")):
+            continue
+        for bi, t in b.calls():
+            d = t["f"].get("def", "")
+            if not (d.startswith("core::num::") and d.rsplit("::", 1)[-1] in ("ilog10", "ilog2", "ilog")):
+                continue
+            n_log += 1
+            arg = b.expr(t["args"][0])
+            if _nonzero_by_shape(arg):
+                ctx.ok("C20-R10", "ilog-nonzero:%s" % i.replace("llguidance::", ""), "argument is non-zero by construction")
+                continue
+            zero = lambda x: x[0] == "const" and x[1] == 0
+            one = lambda x: x[0] == "const" and x[1] == 1
+            preds = [
+                (lambda e: e[0] == "bin" and e[1] == "Ne" and ((_same(e[2], arg) and zero(L.strip_wrappers(e[3]))) or (_same(e[3], arg) and zero(L.strip_wrappers(e[2])))), True),
+                (lambda e: e[0] == "bin" and e[1] == "Eq" and ((_same(e[2], arg) and zero(L.strip_wrappers(e[3]))) or (_same(e[3], arg) and zero(L.strip_wrappers(e[2])))), False),
+                (lambda e: e[0] == "bin" and e[1] == "Gt" and _same(e[2], arg) and zero(L.strip_wrappers(e[3])), True),
+                (lambda e: e[0] == "bin" and e[1] == "Lt" and zero(L.strip_wrappers(e[2])) and _same(e[3], arg), True),
+                (lambda e: e[0] == "bin" and e[1] == "Ge" and _same(e[2], arg) and one(L.strip_wrappers(e[3])), True),
+                (lambda e: e[0] == "bin" and e[1] == "Lt" and _same(e[2], arg) and one(L.strip_wrappers(e[3])), False),
+            ]
+            g = L.guard_edges_multi(b, preds)
+            still = L.dominated_by_cut(b, [bi], g) if g else [bi]
+            ctx.check(not still, "C20-R10", "ilog-of-possibly-zero:%s" % i.replace("llguidance::", ""),
+                      "the logarithm's argument is tested non-zero on every path",
+                      "%s takes %s of `%s`, which is not known to be non-zero: the call panics for 0 (e.g. token id 0, an empty count), "
+                      "turning a legal call into an internal panic" % (i, d.rsplit("::", 1)[-1], F.fmt_expr(arg)), site=b.where(bi))
+    if n_log == 0:
+        ctx.ok("C20-R10", "ilog-census", "no integer-logarithm call in the workspace crates")
+
     # ------------------------------------------------------------------ R6 token id range checks
     vt = ctx.body(TP + "::validate_tokens_raw")
     work = vt.call_blocks("llguidance::earley::parser::Parser::validate_tokens")
